@@ -15,7 +15,7 @@ ERR = {
     "ErrInvalidAccount": "EInvalidAccount", "ErrTooManyAddresses": "ETooManyAddresses",
     "ErrDuplicateAddress": "EDuplicateAddress", "ErrBlockNotFound": "EBlockNotFound",
     "ErrAddressNotFound": "EAddressNotFound", "ErrBirthdayBlockNotSet": "EBirthdayBlockNotSet",
-    "ErrDatabase": "EDatabase",
+    "ErrDatabase": "EDatabase", "panic": "EPanic",
 }
 FATE = {"commit": "Commit", "abort": "AbortCaller", "dryrun": "AbortDryRun", "failcommit": "CommitFails"}
 CODES = {1: "model:operation_outcome", 2: "model:running_manager_answers", 3: "model:fresh_manager_answers",
@@ -42,6 +42,11 @@ def r_addr(ref):
 
 def r_stamp(h, hsh, t):
     return "{| s_height := %s; s_hash := %s; s_time := %s |}" % (cZ(h), nn(hsh), cZ(t))
+
+
+def r_wo(key, fp, sch):
+    sc = "None" if not sch else "(Some (%s, %s))" % (cN(sch[0]), cN(sch[1]))
+    return "{| w_key := %s; w_fp := %s; w_schema := %s |}" % (nn(key), cN(fp), sc)
 
 
 def r_query(q):
@@ -78,6 +83,8 @@ def r_op(o):
         return "ORead (%s)" % r_query(o)
     if k == "newacct":
         return "ONewAccount %s" % nn(o["name"])
+    if k == "newacctwo":
+        return "ONewAccountWO %s %s" % (nn(o["name"]), r_wo(o["key"], o.get("fp", 0), o.get("sch")))
     if k == "rename":
         return "ORename %s %s" % (cN(o["acct"]), nn(o["name"]))
     if k == "next":
@@ -113,11 +120,13 @@ def r_ans(a):
     if k == "addrs":
         return "AAddrs %s" % clist([r_addr(x) for x in a["addrs"] or []])
     if k == "addr":
-        return "AAddr %s %s %s %s %s" % (r_addr(a["ref"]), cN(a["acct"]), cbool(a["internal"]), cbool(a["imported"]), cbool(a["used"]))
+        return "AAddr %s %s %s %s %s %s %s" % (r_addr(a["ref"]), cN(a["acct"]), cbool(a["internal"]), cbool(a["imported"]),
+                                               cbool(a["used"]), cN(a.get("ty", 0)), cN(a.get("fp", 0)))
     if k == "last":
         return "ALast %s" % r_addr(a["ref"])
     if k == "props":
-        return "AProps %s %s %s %s" % (nn(a["name"]), cN(a["ext"]), cN(a["intn"]), cN(a["imp"]))
+        kind = "(Some %s)" % r_wo(a.get("key", 0), a.get("fp", 0), a.get("sch")) if a.get("wo") else "None"
+        return "AProps %s %s %s %s %s" % (nn(a["name"]), cN(a["ext"]), cN(a["intn"]), cN(a["imp"]), kind)
     if k == "name":
         return "AName %s" % nn(a["name"])
     if k == "stamp":
@@ -147,8 +156,9 @@ def r_case(c):
         txs.append("\n   ({| tx_ops := %s; tx_fate := %s; tx_queries := %s |},\n    {| to_outs := %s; to_run := %s; to_fresh := %s |})" % (
             clist([r_op(x) for x in t["ops"] or []]), FATE[t["fate"]], qs,
             clist([r_ans(a) for a in to["outs"] or []]), rs, fs))
-    return ("{| tc_genesis_time := %s; tc_birthday := %s;\n  tc_q0 := %s; tc_q0_run := %s; tc_q0_fresh := %s;\n  tc_txs := %s |}" % (
-        cZ(o["init"]["t"]), cZ(o["init"]["birthday"]), q0, r0, f0, clist(txs)))
+    sch = o["init"]["sch"]
+    return ("{| tc_schema := (%s, %s); tc_genesis_time := %s; tc_birthday := %s;\n  tc_q0 := %s; tc_q0_run := %s; tc_q0_fresh := %s;\n  tc_txs := %s |}" % (
+        cN(sch[0]), cN(sch[1]), cZ(o["init"]["t"]), cZ(o["init"]["birthday"]), q0, r0, f0, clist(txs)))
 
 
 class KindAt(str):
